@@ -57,14 +57,12 @@ def run(rep, tier):
     tpls = _pool(tier)
     t0 = time.time()
     results = []
-    with cf.ProcessPoolExecutor(max_workers=min(16, os.cpu_count() or 4), mp_context=mp.get_context("fork")) as ex:
-        futs = {ex.submit(driver.run_errors, t): t for t in tpls}
-        for f in cf.as_completed(futs):
-            t = futs[f]
-            try:
-                results.append(f.result())
-            except Exception as e:  # noqa
-                results.append(dict(id=t["id"], status="harness_error", reason="worker crashed: %s" % e, subs=[]))
+    results = driver.pmap(driver.run_errors, tpls)
+    for r in results:
+        r.setdefault("subs", [])
+        if r["status"] == "undecided" and not r["subs"]:
+            r["status"] = "not_encoded"
+            r["reason"] = "; ".join(r.get("notes") or ["undecided"])
     results.sort(key=lambda r: r["id"])
     nsites = 0
     cells = 0
